@@ -572,7 +572,7 @@ def _compare(ctx, pending, answers):
                 ctx.disagree('L0', case, impl, ('ok', want), 'query: groups returned')
 
 
-def _third_party(ctx, reqs3, pending3):
+def _third_party(ctx, reqs3, pending3, only_idx=None):
     """Containers as a third party might write them (and as nobody should): items reordered, reference items duplicated, a
     second reference of another type added, the reference removed or given another relationship, template ids stripped.
     The construction parameters no longer describe such a group, so the oracle only demands a duplicate-free answer in
@@ -580,7 +580,7 @@ def _third_party(ctx, reqs3, pending3):
     groups returned (L0) — this is what exercises the error paths of the ROI reference search."""
     import highdicom as hd
     from gen import srreports
-    for idx in range(ctx.n(14, 220)):
+    for idx in ([only_idx] if only_idx is not None else range(ctx.n(14, 220))):
         r = ctx.rng('thirdparty', idx)
         res = _call(srreports.report, r, r.choice([1, 2, 3]), ('planar', 'volumetric'))
         if res[0] != 'ok':
@@ -733,5 +733,7 @@ def replay(ctx, case):
         _check_report(sub, _report_case(sub, case['idx']), [], [])
     elif case.get('stream') == 'args':
         _helpers(sub, [], [])
+    elif case.get('stream') == 'thirdparty':
+        _third_party(sub, [], [], only_idx=case['idx'])
     fl = [f for f in sub.failures if all(f['case'].get(k) == case.get(k) for k in ('method', 'path') if k in case)]
     return (fl or sub.failures)[:3] or None
